@@ -66,4 +66,8 @@ CLAIMED["C20"] = {"text": "Copy/Move/Remove are specified as a TLA+ state machin
                   "design_ref": "3/C20", "note": _TB + " Failure injection uses natural faults plus one verif-tagged failpoint in internal.Copy; crash points are prefixes of the observed event sequence.",
                   "technique": "TLC model checking of a syscall-level fault model; inotify traces of real runs validated by TLC on every prefix"}
 
+CLAIMED["C12"] = {"text": "Hashing writers/readers and checksum verifiers are specified in TLA+ over ideal (injective) digests; TLC model-checks pass-through, reported size, digest and the verifier's accept-iff rule over all chunkings and algorithm lists, then generates behaviours (algorithm lists x chunkings x read buffers) and verifier scenarios (entry source x recorded-hash kind x length x chunking) that the real hashio / FileHash code executes step by step; after every step the observed sizes, passed-through bytes and the ground-truth fact 'whose true digest is this' are validated by TLC.",
+                  "design_ref": "3/C12", "note": _TB + " Concrete digests are ground truth from Go crypto.",
+                  "technique": "TLC model checking over ideal digests; TLC-generated behaviours replayed into hashio, step traces validated by TLC"}
+
 NOT_APPLICABLE = {}
